@@ -16,7 +16,7 @@ const seedP = "gossip/basestream/basestreamseeder."
 
 func init() {
 	register("C17", "other", "T4 GuardedBy (prune only on create), T7 Pairing (tables consistent, write-back before send), T2 Dominates (pending-memory wait before add), T8 (limit tests of the item callbacks)",
-		"Decides the bookkeeping the per-session stream contract depends on, over the request handler of the reader goroutine seen through its calls (the select case and the same-package helpers it is split into; guards, earlier and later statements may live one or more calls up): an existing session is never evicted by a request that resumes a session — deleting another session / shortening the peer's session list happens only on the edge where the requested session was not found, and a changed list is stored back; the peer list and the session table stay consistent (an id appended to the list has its state stored under its key before the handler finishes; unregistering deletes every listed session and the list); the chunk loop runs only while the session is not done, updates next/done and writes the state back before the response is queued, and marks the response done with the same flag; the item callbacks stop before the stop key and when the requested count or size is reached; pending response memory is added only after waiting below the limit and the queued closure subtracts the same amount on every path. Contents and order of the payload produced by the application callback are not decided.",
+		"Decides the bookkeeping the per-session stream contract depends on, over the request handler of the reader goroutine seen through its calls (the select case and the same-package helpers it is split into; guards, earlier and later statements may live one or more calls up): an existing session is never evicted by a request that resumes a session — deleting another session / shortening the peer's session list happens only on the edge where the requested session was not found, and a changed list is stored back; the peer list and the session table stay consistent (an id appended to the list has its state stored under its key before the handler finishes; unregistering deletes every listed session and the list); the chunk loop runs only while the session is not done, updates next/done and writes the state back before the response is queued, and marks the response done with the same flag, which is defined afresh for every chunk; the item callbacks stop before the stop key and when the requested count or size is reached; pending response memory is added only after waiting below the limit and the queued closure subtracts the same amount on every path. Contents and order of the payload produced by the application callback are not decided.",
 		[]string{"ForEachItem / SendChunk callbacks are opaque", "the seeder state is confined to the reader goroutine"},
 		runC17)
 }
@@ -114,6 +114,37 @@ func c17IndexOfField(f *core.FuncInfo, e ast.Expr, field string) bool {
 	return ok && e != nil && fieldNameOf(f, ix.X) == field
 }
 
+// c17BuiltFrom: e is the slice variable v or is built from it by append / reslicing (append(v, x),
+// v[1:], append(v[1:], x)); single-definition locals are looked through.
+func c17BuiltFrom(f *core.FuncInfo, e ast.Expr, v *types.Var) bool {
+	for depth := 0; depth < 6 && e != nil; depth++ {
+		e = ast.Unparen(e)
+		if w := varOf(f, e); w != nil {
+			if w == v || canonVar(f, w) == v {
+				return true
+			}
+			d := singleDef(f, w)
+			if d == nil {
+				return false
+			}
+			e = d
+			continue
+		}
+		switch x := e.(type) {
+		case *ast.SliceExpr:
+			e = x.X
+		case *ast.CallExpr:
+			if isCallTo(f, x, "builtin.append") == nil || len(x.Args) == 0 {
+				return false
+			}
+			e = x.Args[0]
+		default:
+			return false
+		}
+	}
+	return false
+}
+
 // between: every path inside the frame's region from `from` (exclusive) to `to` passes one of via.
 func (fr *c17Frame) between(from core.Point, via []core.Point, to core.Point) (bool, []core.Point) {
 	path, found := core.PathQuery{F: fr.F, From: from, FromAfter: true, Target: core.PointSet(to), Avoid: core.PointSet(via...),
@@ -187,7 +218,8 @@ func runC17(c *core.Ctx) {
 			fr := l.fr
 			var stores []core.Point
 			for _, a := range fr.Assignments() {
-				if c17IndexOfField(fr.F, a.LHS, peerSessF) && a.RHS != nil && varOf(fr.F, a.RHS) == l.v {
+				// the stored value is the list variable, or is built from it (append(list, id), list[1:])
+				if c17IndexOfField(fr.F, a.LHS, peerSessF) && a.RHS != nil && c17BuiltFrom(fr.F, a.RHS, l.v) {
 					stores = append(stores, a.Pt)
 				}
 			}
@@ -387,7 +419,13 @@ func runC17(c *core.Ctx) {
 			if len(sets[respDoneF]) == 0 {
 				continue
 			}
-			for _, sp := range sc.MaySites(fr, sends) {
+			targets := sc.MaySites(fr, sends)
+			if len(targets) == 0 {
+				// the frame fills the response and hands it back to a caller that queues it afterwards:
+				// the flag must agree wherever the frame returns
+				targets = c17HandedBack(sc, fr, sends)
+			}
+			for _, sp := range targets {
 				same, some := false, false
 				for _, rd := range sets[respDoneF] {
 					if o, _ := precedesLocally(f, []core.Point{rd.Pt}, sp); !o {
@@ -411,6 +449,39 @@ func runC17(c *core.Ctx) {
 				}
 			}
 		}
+		// the flag stored into the latch describes this chunk only: the variable it is copied from is
+		// defined afresh on every way round the chunk loop (a flag that survives from an earlier chunk
+		// cut by a limit would keep the exhausting chunk from being marked done)
+		okF, whyF, posF, nF := true, "", token.NoPos, 0
+		for _, fr := range sc.Frames {
+			f := fr.F
+			lo, hi := fr.Range()
+			sets := map[string][]c17FieldSet{doneF: c17FieldSets(f, doneF, lo, hi)}
+			for _, sd := range sets[doneF] {
+				nF++
+				var cands []*types.Var
+				if src := c17ValueSource(f, sd.RHS, sd.Pt, sets, 4); src != nil {
+					cands = append(cands, src)
+				} else {
+					ast.Inspect(sd.RHS, func(n ast.Node) bool {
+						if id, isID := n.(*ast.Ident); isID {
+							if v, isVar := f.Info().Uses[id].(*types.Var); isVar && !v.IsField() {
+								if b, isB := v.Type().Underlying().(*types.Basic); isB && b.Info()&types.IsBoolean != 0 {
+									cands = append(cands, canonVar(f, v))
+								}
+							}
+						}
+						return true
+					})
+				}
+				for _, v := range cands {
+					if ok, why := c17ResetPerRound(sc, fr, v, sd.Pt, 3); !ok {
+						okF, whyF, posF = false, why, sd.Pos
+					}
+				}
+			}
+		}
+		c.Check(okF && nF > 0, "readerLoop|the done flag describes the current chunk only", "reaching definitions", posF, "the flag copied into session.done is defined afresh on every way round the chunk loop", "the 'all consumed' flag is carried over from an earlier chunk of the same request: after a chunk cut by the count/size limit the exhausting chunk is sent with Done=false and the session is never marked done ("+whyF+")")
 		c.Check(okD && nD > 0, "readerLoop|response Done equals the session's done flag", "provenance", posD, "resp.Done and session.done are assigned from the same value before the response is queued", "the response's Done mark and the session's done latch can differ (or the mark is not set before the response is queued)")
 	})
 
